@@ -215,6 +215,18 @@ def model (line : String) : String :=
       s!"{showOK recs (p.length + 1)} fa={showIds (failedA recs)} fg={showIds (failedG recs)}"
     | _, _, _, _, _ => "bad-case"
   | "job" :: _ :: ops => (jobRun ops).getD "bad-case"
+  | ["nl", k, h] =>
+    match k.toNat?, h.toNat? with
+    | some k, some h =>
+      -- first NodeLeft registers the job and starts relocation no. 1; k duplicates before the worker
+      -- finishes, h duplicates inside DeletePeerState (= between the two calls of finish)
+      let d0 := nodeLeftSnap ⟨true, false, 0⟩
+      let d := runActs d0 (finishWith finishOrder k h 0)
+      -- the hook fires before the snapshot is removed, so for the code's order the h duplicates see
+      -- "snapshot present, job registered"; `finishWith` delivers them after the removal where they see
+      -- "snapshot absent": both are no-ops (C33_finish_window), the count is the same
+      s!"started={d.started} job={if d.job then "held" else "released"} del=1"
+    | _, _ => "bad-case"
   | _ => "bad-case"
 
 /-! ### judge mode -/
@@ -273,17 +285,27 @@ def judge (line : String) : String :=
     | _, _, _, _, _ => "ok"
   | ["rs", l, p, t, r, e] =>
     match parseRoles l, parsePeers p, t.toNat?, parseRequests r, parseScript e with
-    | some l, some p, some _, some r, some _ =>
+    | some l, some p, some tgt, some r, some sc =>
       let actors := r.flatMap (fun b => match b with | .actors x => x | .grains _ => [])
       let grains := r.flatMap (fun b => match b with | .grains x => x | .actors _ => [])
       if !nodupNat (actors.map (·.id)) || !nodupNat (grains.map (·.id)) then "ok" else
       match parseTrace (words o) (p.length + 1) with
       | some tr =>
-        match rsCheck (l :: p) actors grains tr with
+        let clean := sc.localFail.isEmpty && sc.remoteFail.isEmpty && !sc.peersErr && sc.poison.all (fun (q, _) => q == tgt)
+        match rsCheck (l :: p) actors grains tr tgt clean with
         | some why => "bad " ++ why
         | none => "ok"
       | none => "bad unparsable output: " ++ o
     | _, _, _, _, _ => "ok"
+  | ["nl", _, _] =>
+    let ws := words o
+    match (field ws "started").bind String.toNat?, field ws "job", (field ws "del").bind String.toNat? with
+    | some st, some job, some del =>
+      if st ≠ 1 then s!"bad {st} relocations were started for one departure (duplicate NodeLeft while the first was still in flight)"
+      else if job ≠ "released" then "bad relocation job still registered after the worker finished"
+      else if del ≠ 1 then "bad peer state snapshot not removed exactly once"
+      else "ok"
+    | _, _, _ => "bad unparsable output: " ++ o
   | "job" :: kind :: ops =>
     if kind = "sys" then
       -- protocol-respecting script: no snapshot may be named by two RelocationFailed events
